@@ -786,7 +786,8 @@ impl World {
                     (Attribute::Uuid, Value::Uuid(Uuid::from_u128(0xaaaaaaaa_00cd_4000_8000_000000000000u128 | *idx as u128))),
                     (Attribute::ClassName, Value::new_iutf8(&custom_class(*idx))),
                     (Attribute::Description, Value::new_utf8s("verif custom class")),
-                    (Attribute::May, Value::new_iutf8(&custom_attr(*idx)))
+                    // class 0 allows its attribute, every other class requires it
+                    (if *idx == 0 { Attribute::May } else { Attribute::Must }, Value::new_iutf8(&custom_attr(*idx)))
                 );
                 wr.internal_create(vec![e]).map_err(e2s)?;
             }
@@ -822,7 +823,7 @@ impl World {
             }
             Op::IllFormed { obj, kind, .. } => {
                 let u = obj.uuid();
-                match kind % 6 {
+                match kind % 8 {
                     0 => {
                         // create without a required attribute (person without displayname/name)
                         let e = entry_init!(
@@ -861,6 +862,16 @@ impl World {
                     4 => {
                         // remove a required attribute
                         let ml = ModifyList::new_list(vec![Modify::Purged(Attribute::Name)]);
+                        wr.internal_modify_uuid(u, &ml).map_err(e2s)?;
+                    }
+                    6 => {
+                        // take an administrator-defined class without the attribute it requires
+                        let ml = ModifyList::new_list(vec![Modify::Present(Attribute::Class, Value::new_iutf8(&custom_class(1)))]);
+                        wr.internal_modify_uuid(u, &ml).map_err(e2s)?;
+                    }
+                    7 => {
+                        // drop the attribute an administrator-defined class requires
+                        let ml = ModifyList::new_list(vec![Modify::Purged(Attribute::from(custom_attr(1).as_str()))]);
                         wr.internal_modify_uuid(u, &ml).map_err(e2s)?;
                     }
                     _ => {
